@@ -59,7 +59,13 @@ ImClause(o) == ObsClause(o, Cardinality(DOMAIN im'.nodes), DOMAIN im'.nodes, im'
 AbsV(x) == IF x < 0 THEN -x ELSE x
 \* membership with margin (exact when ~Approx)
 Must(d2, r2) == IF Approx THEN RLess(<<d2[1] * (EPSD + 1), d2[2] * EPSD>>, r2) ELSE RLess(d2, r2)
-May(d2, r2)  == IF Approx THEN RLess(<<d2[1] * (EPSD - 1), d2[2] * EPSD>>, r2) ELSE RLess(d2, r2)
+May(d2, r2)  == IF Approx THEN RLess(<<d2[1] * (EPSD - 1), d2[2] * EPSD>>, r2) ELSE RLeq(d2, r2)
+\* An element EXACTLY at the radius is a floating-point knife-edge (the projection / square root rounds either way),
+\* so it may or may not be returned - except when the computation is exact in floating point: a point distance
+\* whose square is a perfect square (distance and radius are then exactly representable).  There the strict
+\* inequality of the property is enforced.
+IsSquare(n) == \E k \in 0..n : k * k = n
+ExactlyAtRadius(d2, r2) == ~Approx /\ REq(d2, r2) /\ d2[2] = 1 /\ IsSquare(d2[1])
 \* logged squared distance fx agrees with the exact rational d2
 DistOK(fx, d2) ==
   LET tol == IF Approx THEN SLACK * d2[2] + (2 * d2[1] * SC) \div EPSD + d2[2] * 64 ELSE SLACK * d2[2] IN
@@ -74,6 +80,7 @@ NodeQClause(q, nodes, ids) ==
   IN IF q.exc # "" THEN "no-exception"
      ELSE IF Len(q.res) # Cardinality(got) THEN "closeto-duplicates"
      ELSE IF ~(got \subseteq may) THEN "closeto-returns-element-outside-radius"
+     ELSE IF \E n \in got : ExactlyAtRadius(<<D2(Pt(q.p), nodes[n]), 1>>, q.r2) THEN "closeto-returns-element-exactly-at-the-radius"
      ELSE IF \E x \in S2(q.res) : ~DistOK(x[2], <<D2(Pt(q.p), nodes[x[1]]), 1>>) THEN "closeto-distance"
      ELSE IF ~SortedOK(q.res, 2) THEN "closeto-sorted"
      ELSE IF q.k = 0 /\ ~(must \subseteq got) THEN "closeto-misses-element-within-radius"
@@ -95,6 +102,8 @@ EdgeQClause(q, nodes, es) ==
   IN IF q.exc # "" THEN "no-exception"
      ELSE IF Len(q.res) # Cardinality(got) THEN "closeto-duplicates"
      ELSE IF ~(got \subseteq may) THEN "closeto-returns-element-outside-radius"
+     ELSE IF \E e \in got : ProjCase(Pt(q.p), nodes[e[1]], nodes[e[2]]) \in {"zero", "before", "after", "at0", "at1"}
+                              /\ ExactlyAtRadius(ps2(e), q.r2) THEN "closeto-returns-element-exactly-at-the-radius"
      ELSE IF \E x \in S2(q.res) : ~DistOK(x[3], ps2(<<x[1], x[2]>>)) THEN "closeto-distance"
      ELSE IF \E x \in S2(q.res) :
                LET t == ProjT(Pt(q.p), nodes[x[1]], nodes[x[2]]) IN AbsV(x[4] * t[2] - t[1] * SC) > ttol * t[2]
